@@ -333,9 +333,11 @@ class _FailingCursor:
         self._p["log"].append(what)
         if self._p["n"] - 1 == self._p["at"]:
             self._p["what"] = what
+            self._p["log"][-1] = what + "!raised"
             raise self._p.get("exc", RuntimeError)("injected failure at " + what)
         if self._p.get("sticky") and self._p.get("what") == what and self._p["n"] - 1 > self._p["at"]:
             # the cause of the failure is still there: the same statement fails again however often it is tried
+            self._p["log"][-1] = what + "!raised"
             raise self._p.get("exc", RuntimeError)("injected failure at " + what + " (again)")
 
     def execute(self, sql, *a):
@@ -361,6 +363,7 @@ class _FailingConn:
         self._p["n"] += 1
         self._p["log"].append("commit")
         if self._p["n"] - 1 == self._p["at"]:
+            self._p["log"][-1] = "commit!raised"
             raise RuntimeError("injected failure at commit")
         return self._c.commit()
 
@@ -370,6 +373,22 @@ class _FailingConn:
 
 class _Interrupt(BaseException):
     """stands for KeyboardInterrupt / SystemExit / a cancellation: not an Exception"""
+
+
+_SQL_CODES = {"execute:PRAGMA": 0, "execute:SELECT": 0, "executescript": 4, "execute:DELETE": 1, "execute:DROP": 1, "execute:INSERT": 2, "commit": 3}
+
+
+def sql_codes(executed):
+    """the statements a save really executed, as the codes of `Checkpoint.sqlOfCodes` (None: a statement the model has no counterpart for)"""
+    return [_SQL_CODES.get(st) for st in executed]
+
+
+def committing_inside(executed, completed):
+    """hypothesis of theorem sqlite_transaction_atomic read off an executed statement list: nothing that commits between the first row-changing statement
+    and the final commit (executescript commits a pending transaction before it runs)"""
+    first_dml = next((i for i, st in enumerate(executed) if st.split(":")[-1] in ("DELETE", "INSERT", "DROP", "UPDATE", "REPLACE")), len(executed))
+    body = executed[first_dml:-1] if completed else executed[first_dml:]
+    return [st for st in body if st in ("executescript", "commit") or st.startswith(("execute:CREATE", "execute:ALTER", "execute:VACUUM", "execute:COMMIT", "execute:END"))]
 
 
 def sqlite_args(a):
@@ -426,12 +445,13 @@ def run_sqlite(chk: Check, s1, s2, label="short-history", earlier=()):
         nstm = plan["n"]
         stmts = list(plan["log"])
         chk.extra["sqlite_statements"] = stmts
-        # model index of each call site: PRAGMA and the DDL script change no row (ddl), then delete, insert, commit
-        midx = []
-        for s in stmts:
-            midx.append({"execute:PRAGMA": 0, "executescript": 0, "execute:DELETE": 1, "execute:INSERT": 2, "commit": 3}.get(s, -1))
-        if sorted(set(midx)) != [0, 1, 2, 3]:
-            chk.disagree("statements of the SQLite save != model (ddl, delete, insert, commit)", {"statements": stmts})
+        # hypothesis of theorem sqlite_transaction_atomic, read off the statements the save really executes
+        inside = committing_inside(stmts, True)
+        chk.count("sqlite:transaction_shape_checked")
+        if inside or not stmts or stmts[-1] != "commit" or None in sql_codes(stmts):
+            chk.disagree("the SQLite save is not 'preamble, statements that do not commit, then commit' (hypothesis of sqlite_transaction_atomic)", {"statements": stmts, "committing_inside": inside})
+        if " ".join(map(str, sql_codes(stmts))) != "0 4 1 2 3":
+            chk.disagree("statements of the SQLite save != Checkpoint.sqlSaveStmts (PRAGMA, DDL script, DELETE, INSERT, commit)", {"statements": stmts})
         reqs = []
         outcomes = []
         # the failure is an ordinary exception, or one that is not an Exception (an interrupt, an exit request): either way the save failed
@@ -456,19 +476,26 @@ def run_sqlite(chk: Check, s1, s2, label="short-history", earlier=()):
             out = "new" if got == LN else "prev" if got == LP else ("error" if isinstance(got, str) else "hybrid")
             outcomes.append((k, stmts[k] + ("" if exc is RuntimeError else " (a BaseException that is not an Exception)" if exc is _Interrupt else
                                             " (sqlite3.OperationalError" + (", every time the statement is tried)" if sticky else ", once)")), raised, out))
-            reqs.append(f"ckpt.sql {'1 5' if have_prev else '0'} {midx[k]}")
+            # the model runs the statements THIS run executed (read off the log: a call that raised did not execute), then rolls back if the save raised
+            executed = [st for st in plan["log"] if not st.endswith("!raised")]
+            codes = [c if c is not None else 0 for c in sql_codes(executed)]
+            reqs.append(f"ckpt.sqlseq {'1 5' if have_prev else '0'} {len(codes)} {' '.join(map(str, codes))} {len(codes) if raised is not None else -1}".replace("  ", " "))
+            bad_inside = committing_inside(executed, raised is None)
+            if bad_inside:
+                chk.disagree("a failing SQLite save executed a committing statement inside its transaction (hypothesis of sqlite_transaction_atomic)", {"executed": executed, "committing_inside": bad_inside})
             chk.count("sqlite:exception_class:" + exc.__name__ + (":sticky" if sticky else ""))
         answers = lean_run(reqs)
         for (k, st, raised, out), ans in zip(outcomes, answers):
             chk.case(["sqlite", label, have_prev, k, st], True, {"backend": "sqlite", "history": label, "previous_checkpoint": have_prev, "exception_at_statement": st, "restore": out})
             chk.count(f"sqlite:{'prev' if have_prev else 'empty'}:{out}")
-            model = {"5": "prev", "999": "new", "": "prev"}.get(ans, ans)     # committed table: [5]=previous row, [999]=new row, []=nothing (= previous state of an empty db)
+            # committed table: [5]=previous row, [999]=new row, []=nothing (= the previous state of an empty db; after a previous checkpoint: no row to load)
+            model = {"5": "prev", "999": "new", "": "error" if have_prev else "prev"}.get(ans, ans)
             if raised is None:
                 # the save reported success although one of its statements failed (it recovered by itself): then it must have written the complete new checkpoint
                 if out != "new":
                     chk.fail(f"the exception injected at {st} did not propagate out of save_calibrator_state, and a restore does not give the new checkpoint but: {out}", {"case": {"kind": "sqlite", "k": k}})
-                else:
-                    chk.disagree("SQLite save absorbed a failing statement and completed (no such path in BlackIt.Checkpoint.sqlRun)", {"statement": st, "impl": out, "model": ans})
+                elif have_prev and model != out:
+                    chk.disagree("SQLite save absorbed a failing statement: outcome != BlackIt.Checkpoint.sqlRun on the statements it executed", {"statement": st, "impl": out, "model": ans})
                 continue
             if have_prev and out != "prev":
                 chk.fail(f"SQLite save failing at {st}: the previous checkpoint is no longer loadable (restore gives {out})", {"case": {"kind": "sqlite", "k": k, "prev": True}})
